@@ -205,3 +205,21 @@ CHECKS.update({
         "note": REFNOTE + "interleavings limited to when the timer fires; a child that does not answer in time is inconclusive",
     },
 })
+
+CHECKS.update({
+    "C25": {
+        "technique": "Hypothesis generator of Nest trees (depth 1-2) over CrossBlocks; structural predicate written from the property text + reference compositional validity on every formula model and sampler output + exhaustion equality + associativity differential",
+        "text": ("For generated Nest(outer, inner) designs without preamble trials: trials_per_sample equals outer x inner; every model of the compiled formula (capped) and every sequence "
+                 "from IterateSATGen, RandomGen, CMSGen splits into groups of the inner length with the outer crossed factors constant per group, the outer crossing satisfied over the groups "
+                 "and each group a valid inner sequence; small designs are exhausted and compared with the reference enumeration; Nest(Nest(a,b),c) and Nest(a,Nest(b,c)) must have equal "
+                 "trial counts and exhausted multisets. Sampled."),
+        "note": "Nest with preamble trials, constraints on sustained factors, outer constraints other than Exclude and Excludes acting across members are ambiguous in the documentation and excluded (counted); open findings F09a, F12 excluded by shape",
+    },
+    "C26": {
+        "technique": "Hypothesis generator of Repeat/Merge/Nest with constraints placed on member blocks or on the combinator; reference scoping (repetition windows incl. preamble) as validity and exhaustion oracle; metamorphic member-vs-combinator placement",
+        "text": ("Member-block constraints must hold in every repetition window of that block (its length, stepping by length minus preamble), combinator constraints over the whole sequence: "
+                 "checked on every model of the compiled formula (capped), on IterateSATGen/RandomGen output, and by exhaustion equality with the reference when small. Metamorphic: moving an "
+                 "AtMostKInARow from the member block to the combinator may only remove sequences, and must remove some exactly when the reference distinguishes the placements. Sampled."),
+        "note": "count-type constraints on a truncated final repetition, constraints on late-starting derived factors of a member block, order constraints inside member blocks and constraints on sustained factors are ambiguous and excluded (counted)",
+    },
+})
